@@ -104,8 +104,8 @@ def action_check(index: RepoIndex, rep, rule: str) -> None:
     m = index.func(SPACES, 'ActionSpace.contains')
     b = m.body()
     p = m.node.args.args[1].arg
-    rep.check(len(b) == 1 and isinstance(b[0], ast.Return)
-              and src(b[0].value) == f'{p} in self.actions', rule, SPACES,
+    from ..view import value_text
+    rep.check(value_text(index, m) == f'{p} in self.actions', rule, SPACES,
               'ActionSpace.contains', m.node.lineno, src(b[-1]),
               'ActionSpace.contains is not membership in the declared actions',
               'action membership')
